@@ -29,9 +29,18 @@ fn ref_valid(b: &[u8]) -> bool {
 
 /// `n` free bytes over the alphabet {a, :} (and, with `multibyte`, the 2-byte scalar 'é' as a unit).
 pub fn body(maxlen: usize, multibyte: bool, witness: bool) {
+    body_prefixed("", maxlen, multibyte, witness)
+}
+
+/// A fixed prefix followed by up to `maxlen` free units: reaches longer names with few free bytes.
+pub fn body_prefixed(prefix: &'static str, maxlen: usize, multibyte: bool, witness: bool) {
     let mut buf = [0u8; 16];
     let units = sym::below(maxlen as u8 + 1) as usize;
     let mut len = 0usize;
+    for &b in prefix.as_bytes() {
+        buf[len] = b;
+        len += 1;
+    }
     let mut u = 0;
     while u < maxlen {
         if u < units {
@@ -74,4 +83,10 @@ harnesses! {
     fn names_len7() { body(7, false, false) }
     #[kani::unwind(10)]
     fn names_len4_multibyte() { body(4, true, false) }
+    #[kani::unwind(10)]
+    fn names_colons_plus3() { body_prefixed("::", 3, false, false) }
+    #[kani::unwind(10)]
+    fn names_a_colons_plus3() { body_prefixed("a::", 3, false, false) }
+    #[kani::unwind(10)]
+    fn names_ab_colons_plus3() { body_prefixed("ab:", 3, false, false) }
 }
